@@ -47,3 +47,10 @@ Theorem C17_listing_is_preorder_each_node_once : forall bad text d, loads bad te
      pre (List.length (d_nodes d)) d i = i :: flat_map (pre (List.length (d_nodes d)) d) (n_children (get_node d i))).
 Proof. exact listing_is_preorder. Qed.
 Print Assumptions C17_listing_is_preorder_each_node_once.
+
+(* obligation regenerated from the source on every run: the code this property runs through keeps exactly the state the
+   model knows (no new attribute, class-level table, module-level binding or caching decorator), see proofs/State*Proofs.v *)
+From KV Require Import StateGen StateBase StateDocumentProofs.
+Theorem C17_state_as_modelled : state_document = modelled_state_document.
+Proof. exact state_document_as_modelled. Qed.
+Print Assumptions C17_state_as_modelled.
